@@ -1,7 +1,7 @@
 (* Facts about every reachable state beyond the layout invariant: fields persist, recorded maxima only
    grow and bound every value given, requirement tuples stay local, instances stay valid. *)
 From Coq Require Import ZArith List Bool Lia Permutation.
-Require Import Rig.Model.Base Rig.Model.BitField Rig.Spec.BitField.
+Require Import Rig.Generated.GenBitField Rig.Model.Base Rig.Model.BitField Rig.Spec.BitField.
 Require Import Rig.Proofs.BitFieldBits Rig.Proofs.BitFieldTree Rig.Proofs.BitFieldAssign
                Rig.Proofs.BitFieldAdd Rig.Proofs.BitFieldKeys.
 Import ListNotations.
@@ -242,7 +242,7 @@ Lemma step_keys_local st o st' r : keys_local (s_tree st) = true -> step st o = 
 Proof.
   intros HK H. destruct o; simpl in H; try (inversion H; subst; exact HK).
   - destruct (add_field st (inst_fv st inst) i len start tags) as [s1 e1] eqn:E.
-    inversion H; subst s1 r. clear H. unfold add_field, add_field_gen in E.
+    inversion H; subst s1 r. clear H. unfold add_field, gen_range_orig, add_field_gen in E.
     destruct (match len with Some l => l <=? 0 | None => false end); [inversion E; subst; exact HK|].
     destruct (match start with Some s => range_bad false (s_len st) s len | None => false end);
       [inversion E; subst; exact HK|].
@@ -259,7 +259,7 @@ Proof.
     destruct (call_check _ _ _ _); inversion E; subst; exact HK.
   - destruct (assign_fields st) as [s1 e1] eqn:E. inversion H; subst s1 r.
     destruct (reachable_inv (init 0) (reach_init 0)) as [_ _].
-    unfold assign_fields, assign_fields_gen in E.
+    unfold assign_fields, gen_scan_orig, assign_fields_gen in E.
     destruct (assign_nodes _ _ _ _ _ _) as [sa [k|]]; [inversion E; subst; exact HK|].
     destruct (assign_nodes _ _ _ _ _ _) as [sb eb]. inversion E; subst; exact HK.
 Qed.
@@ -316,7 +316,7 @@ Proof.
   - destruct (add_field st (inst_fv st inst) i len start tags) as [s1 e1] eqn:E.
     inversion H; subst s1 r. clear H.
     assert (Hins : s_insts st' = s_insts st).
-    { unfold add_field, add_field_gen in E.
+    { unfold add_field, gen_range_orig, add_field_gen in E.
       destruct (match len with Some l => l <=? 0 | None => false end); [inversion E; reflexivity|].
       destruct (match start with Some s => range_bad false (s_len st) s len | None => false end);
         [inversion E; reflexivity|].
